@@ -33,6 +33,7 @@ import (
 type Case struct {
 	Family string `json:"family"`
 	Index  int    `json:"index"`
+	Tier   string `json:"tier"` // the family spaces differ between the tiers
 	Desc   string `json:"desc,omitempty"`
 }
 
@@ -620,6 +621,9 @@ func main() {
 		if r.ReplayPath != "" {
 			var c Case
 			r.LoadReplay(&c)
+			if c.Tier != "" {
+				fs = families(c.Tier == "quick")
+			}
 			for _, f := range fs {
 				if f.name == c.Family {
 					if c.Index < 0 || c.Index >= f.n {
@@ -645,7 +649,7 @@ func main() {
 			for starts[k] > i {
 				k--
 			}
-			fs[k].run(r, Case{Family: fs[k].name, Index: i - starts[k]})
+			fs[k].run(r, Case{Family: fs[k].name, Index: i - starts[k], Tier: r.Tier})
 		})
 	})
 }
